@@ -722,6 +722,18 @@ func (c *Ctx) ruleFailedKept(rr *RuleRep, rr18 *RuleRep) {
 				}
 			}
 		})
+		// the same test behind a predicate: `if cancelled(ctx) { return nil }` with cancelled = non-blocking receive from Done()
+		for _, b := range g.Blocks {
+			iff := blockIf(b)
+			if iff == nil {
+				continue
+			}
+			if k, ok := iff.Cond.(*ssa.Call); ok && len(k.Call.Args) == 1 && k.Call.Args[0] == ssa.Value(g.Params[0]) {
+				if pf := c.StaticCalleeOf(&k.Call); pf != nil && c.isDoneProbe(pf) {
+					exempt = append(exempt, ifEdge{b, 0})
+				}
+			}
+		}
 		isExempt := func(b *ssa.BasicBlock, k int) bool {
 			for _, e := range exempt {
 				if e.B == b && e.K == k {
@@ -1107,4 +1119,63 @@ func (c *Ctx) identityGuard(f *ssa.Function, cause ssa.Value) func(at ssa.Instru
 		return !reach
 	}
 	return guarded
+}
+
+// isDoneProbe: f(ctx) bool is a predicate for "ctx is done": one non-blocking select whose only receive is from
+// ctx.Done(); every return behind that case is true, every return behind the default is false.
+func (c *Ctx) isDoneProbe(f *ssa.Function) bool {
+	if f == nil || f.Pkg != c.Pkg || len(f.Params) != 1 || len(f.Blocks) == 0 || f.Signature.Results().Len() != 1 {
+		return false
+	}
+	if b, ok := f.Signature.Results().At(0).Type().Underlying().(*types.Basic); !ok || b.Kind() != types.Bool {
+		return false
+	}
+	var sel *ssa.Select
+	n := 0
+	eachInstr(f, func(in ssa.Instruction) {
+		switch x := in.(type) {
+		case *ssa.Select:
+			sel = x
+			n++
+		case *ssa.Call, *ssa.Go, *ssa.Defer, *ssa.Send, *ssa.Store, *ssa.MapUpdate:
+			if k, isCall := in.(*ssa.Call); isCall && k.Call.IsInvoke() && k.Call.Method.Name() == "Done" {
+				return
+			}
+			n += 10
+		}
+	})
+	if sel == nil || n != 1 || sel.Blocking {
+		return false
+	}
+	okAll := true
+	seen := 0
+	for _, cs := range selectCases(sel) {
+		if !cs.HasEdge {
+			return false
+		}
+		want := false
+		if cs.State != nil {
+			if cs.State.Dir != types.RecvOnly || !c.isCtxMethodOf(cs.State.Chan, "Done", f.Params[0]) {
+				return false
+			}
+			want = true
+		}
+		reach := ReachableViaEdge(f, cs.Edge, PathQ{})
+		for _, ret := range returnsOf(f) {
+			if !reach[ret] {
+				continue
+			}
+			rv := c.Resolve(ret.Results[0])
+			if phi, isPhi := rv.(*ssa.Phi); isPhi {
+				if vs, reached := valuesAlong(f, cs.Edge, ret, phi, nil); reached && len(vs) == 1 {
+					rv = vs[0]
+				}
+			}
+			seen++
+			if b, isK := constBool(rv); !isK || b != want {
+				okAll = false
+			}
+		}
+	}
+	return okAll && seen >= 2
 }
